@@ -2685,15 +2685,24 @@ def check_c10(ctx):
         where[rid] = ("desc", u, detail)
     # mutated and random texts: parse / analyze / json must answer with a value or a diagnostic
     nmut = 4000 if ctx.tier == "quick" else 60000
-    srcs = [u.src for u in units]
-    texts = []
+    texts, tsrc = [], []
     for i in range(nmut):
-        t = rng.choice(srcs)
+        su = rng.choice(units)
+        t = su.src
         for _ in range(rng.choice([1, 1, 1, 2, 3])):
             t = mutate_text(rng, t) or t
         texts.append(t)
+        tsrc.append(su)
     # every description once more with all its integer literals in hexadecimal
     texts += [hex_variant(rng, u.src, 1.0) for u in units]
+    tsrc += list(units)
+    # ... and once more with its declarations in reverse order (forward references everywhere)
+    for u in units:
+        if u.desc["endian"] == "little" and len(u.desc["decls"]) > 1:
+            rd = json.loads(json.dumps(u.desc))
+            rd["decls"] = rd["decls"][::-1]
+            texts.append(pdl.render(rd))
+            tsrc.append(u)
     reqs = [dict(rid=i, name="mut%d.pdl" % i, src=t, want=["parse", "analyze", "json"]) for i, t in enumerate(texts)]
     mres = run_driver(ctx.driver(), reqs, tag="mut")
     # texts the analyzer accepts are handed to every backend whose supported class they fall into (the class is
@@ -2725,7 +2734,10 @@ def check_c10(ctx):
     greqs = []
     for i, mu in mof.items():
         inf = minfo.get(mu.name, {})
-        want = [b for b, flag in (("rust", "rust"), ("python", "py"), ("cxx", "cxx"), ("java", "java")) if inf.get(flag)]
+        # (texts derived from a builder description: the clean classes of spec/PdlDev.tla, as for the description itself)
+        clean = tsrc[i].desc["name"].startswith("g_")
+        want = [b for b, flag in (("rust", "rust"), ("python", "pyclean" if clean else "py"), ("cxx", "cxxclean" if clean else "cxx"),
+                                 ("java", "javaclean" if clean else "java")) if inf.get(flag)]
         mu.want = want
         if want:
             greqs.append(dict(rid=i, name="mut%d.pdl" % i, src=texts[i], want=["parse", "analyze"] + want))
